@@ -21,3 +21,11 @@ Theorem C11_by_ref_needs_layout : forall a_nat b_nat a_eff b_eff ev rp,
   (match a_nat with SFuture _ _ _ _ | SFnClosure _ _ | SBoxed _ | STrait _ _ => False | _ => True end) ->
   arg_layout_compatible a_nat b_nat a_eff b_eff ev rp = LYes -> layout_compatible a_nat b_nat = true.
 Proof. exact plain_arg_by_ref_needs_layout. Qed.
+
+(* since fix F16 (found by the thorough tier of C10): ... and only if each side's type is unchanged between its native
+   and the negotiated version, i.e. the two byte-identical layouts also mean the same thing *)
+Theorem C11_by_ref_needs_unchanged : forall a_nat b_nat a_eff b_eff ev rp,
+  (match a_nat with SFuture _ _ _ _ | SFnClosure _ _ | SBoxed _ | STrait _ _ => False | _ => True end) ->
+  arg_layout_compatible a_nat b_nat a_eff b_eff ev rp = LYes ->
+  bytes_eqb (ser 2 a_nat) (ser 2 a_eff) = true /\ bytes_eqb (ser 2 b_nat) (ser 2 b_eff) = true.
+Proof. exact plain_arg_by_ref_needs_unchanged. Qed.
